@@ -436,6 +436,10 @@ def _resize(o):
 
 
 def _resample(o):
+    if o.get('d2'):
+        dom = odl.uniform_discr([0, 0], [1, 1], o['n'])
+        ran = odl.uniform_discr([0, 0], [1, 1], o['m'])
+        return odl.Resampling(dom, ran, interp=o['interp'])
     dom = odl.uniform_discr(0, 1, o.get('n', 4))
     ran = odl.uniform_discr(0, 1, o.get('m', 6))
     return odl.Resampling(dom, ran, interp=o.get('interp', 'nearest'))
@@ -610,7 +614,10 @@ SPECS = [
            dict(grid=[['I', None], [None, None]], explicit=1),
            dict(grid=[['Ac', 'M'], [None, 'I']], space='cn2'), dict(grid=[['A'], ['M'], ['I']]),
            dict(grid=[['A', 'M', 'I']]), dict(grid=[['Aff', 'P2'], ['M', None]]),
-           dict(grid=[['I', 'M'], ['M', 'S2']], space='ud2')],
+           dict(grid=[['I', 'M'], ['M', 'S2']], space='ud2'),
+           # rows whose FIRST operator hands back (a view of) its argument
+           dict(grid=[['V', 'M'], ['I', 'V']]), dict(grid=[['V', 'V', 'S2']]),
+           dict(grid=[['V', 'M'], [None, 'V']], space='ud2')],
           _psop),
     OSpec('ComponentProjection', [dict(dom='pr3', i=0), dict(dom='pr3', i=1), dict(dom='pr3', i=[0, 2]),
                                   dict(dom='pw3', i='slice'), dict(dom='pr3w', i=0),
@@ -625,7 +632,8 @@ SPECS = [
                                          dict(dom='pw5', i='neg'), dict(dom='pw5', i=[3, 0]),
                                          dict(dom='pw5', i=-1)],
           lambda o: odl.ComponentProjectionAdjoint(_sp(o['dom']), _cp_index(o['i']))),
-    OSpec('BroadcastOperator', [dict(ops=['I', 'M']), dict(ops=['A', 'S2', 'M']), dict(ops=['P2', 'sin']),
+    OSpec('BroadcastOperator', [dict(ops=['V', 'M']), dict(ops=['V', 2]),
+                                dict(ops=['I', 'M']), dict(ops=['A', 'S2', 'M']), dict(ops=['P2', 'sin']),
                                 dict(ops=['Ac', 'M'], space='cn2'), dict(ops=['I', 'M'], space='ud2'),
                                 dict(ops=['Aff', 'M']), dict(ops=['P2', 2]), dict(ops=['sin', 3])],
           lambda o: (odl.BroadcastOperator(_leaf(o['ops'][0], _sp(o.get('space', 'rn2'))), o['ops'][1])
@@ -634,11 +642,14 @@ SPECS = [
     OSpec('ReductionOperator', [dict(ops=['I', 'M']), dict(ops=['A', 'S2', 'M']), dict(ops=['P2', 'sin']),
                                 dict(ops=['Ac', 'M'], space='cn2'), dict(ops=['I', 'M'], space='ud2'),
                                 dict(ops=['Aff', 'M']), dict(ops=['P2', 2]), dict(ops=['sin', 3]),
-                                dict(ops=['P3', 2], space='ud2')],
+                                dict(ops=['P3', 2], space='ud2'), dict(ops=['V', 'M']),
+                                dict(ops=['V', 'V', 'I']), dict(ops=['V', 2]),
+                                dict(ops=['V', 'S2'], space='ud2')],
           lambda o: (odl.ReductionOperator(_leaf(o['ops'][0], _sp(o.get('space', 'rn2'))), o['ops'][1])
                      if isinstance(o['ops'][1], int) else
                      odl.ReductionOperator(*[_leaf(n, _sp(o.get('space', 'rn2'))) for n in o['ops']]))),
-    OSpec('DiagonalOperator', [dict(ops=['I', 'M']), dict(ops=['A', 'S2', 'M']), dict(ops=['P2', 'sin']),
+    OSpec('DiagonalOperator', [dict(ops=['V', 'M']), dict(ops=['V', 2]),
+                               dict(ops=['I', 'M']), dict(ops=['A', 'S2', 'M']), dict(ops=['P2', 'sin']),
                                dict(ops=['Ac', 'M'], space='cn2'), dict(ops=['A', 2]),
                                dict(ops=['I', 'M'], space='ud2'), dict(ops=['Aff', 'exp']),
                                dict(ops=['P2', 2]), dict(ops=['sin', 3])],
@@ -669,7 +680,15 @@ SPECS = [
                                dict(dom='ud4b', ran_shp=(6,)), dict(dom='udc4', ran_shp=(6,))],
           _resize),
     OSpec('Resampling', [dict(), dict(interp='linear'), dict(n=6, m=4), dict(n=6, m=4, interp='linear'),
-                         dict(n=4, m=8, interp='linear')], _resample, approx_adjoint=True,
+                         dict(n=4, m=8, interp='linear'),
+                         # every target node half-way between two source nodes (ties), odd ratios,
+                         # one node, mixed schemes per axis
+                         dict(n=8, m=4), dict(n=4, m=2), dict(n=8, m=2), dict(n=6, m=2), dict(n=3, m=1),
+                         dict(n=4, m=2, interp='linear'), dict(n=2, m=8),
+                         dict(d2=1, n=[4, 4], m=[2, 2], interp=['linear', 'nearest']),
+                         dict(d2=1, n=[4, 2], m=[2, 4], interp=['nearest', 'linear']),
+                         dict(d2=1, n=[2, 4], m=[4, 2], interp='nearest')],
+          _resample, approx_adjoint=True,
           note='docstring: "Return an (approximate) adjoint"'),
     OSpec('LinDeformFixedTempl', [dict(k='templ'), dict(k='templ', interp='nearest')], _deform,
           exempt_deriv=True, approx_adjoint=True,
@@ -801,6 +820,25 @@ for _k in ['translated', 'leftscal', 'rightscal', 'quadpert', 'scalarsum', 'breg
                             'rightscal_div': 'FunctionalRightScalarMult',
                             'leftright': 'FunctionalLeftScalarMult',
                             'translated2': 'FunctionalTranslation'}[_k]))
+
+
+def _simple_functional(o):
+    # every ingredient of f = |x|^2 and of f* = |y|^2 / 4 given; `hops` conjugations
+    sp = S.build(o['space'])
+    f = odl.solvers.simple_functional(
+        sp, fcall=lambda x: x.inner(x), grad=lambda x: 2.0 * x,
+        prox=lambda sig: odl.ScalingOperator(sp, 1.0 / (1.0 + 2.0 * sig)), grad_lip=2.0,
+        convex_conj_fcall=lambda y: y.inner(y) / 4.0, convex_conj_grad=lambda y: 0.5 * y,
+        convex_conj_prox=lambda sig: odl.ScalingOperator(sp, 1.0 / (1.0 + 0.5 * sig)),
+        convex_conj_grad_lip=0.5)
+    for _ in range(o['hops']):
+        f = f.convex_conj
+    return f
+
+
+SPECS.append(OSpec('simple_functional', [dict(space=s, hops=h) for h in (0, 1, 2, 3)
+                                         for s in ('rn3', 'ud3')], _simple_functional,
+                   cls='SimpleFunctional'))
 SPECS.append(OSpec('ScalingFunctional', [dict(a=2.0), dict(a=-0.5)],
                    lambda o: odl.solvers.ScalingFunctional(R, o['a'])))
 SPECS.append(OSpec('IdentityFunctional', [dict()], lambda o: odl.solvers.IdentityFunctional(R)))
